@@ -1,6 +1,6 @@
 (* C14 - pooling and delta-method formulas: lemmas about the GENERATED model genR/Aggr.v *)
 From Coq Require Import Reals String List Lra Lia.
-From TT Require Import lib.PreludeR lib.Stats genR.Aggr.
+From TT Require Import lib.RTac lib.PreludeR lib.Stats genR.Aggr.
 Import ListNotations.
 Local Open Scope R_scope.
 
@@ -102,7 +102,7 @@ Qed.
 Lemma add_var_concat c :
   var_ (agg_add (aggr_of l1) (aggr_of l2)) c = svar (col c) (l1 ++ l2).
 Proof.
-  cbn. unfold add_var. cbn. nR. unfold svar. rewrite <- (add_cov_gen (col c) (col c)). reflexivity.
+  cbn. unfold add_var. cbn. nR. unfold svar. rewrite <- (add_cov_gen (col c) (col c)). first [reflexivity | rq].
 Qed.
 
 Lemma add_cov_concat p :
@@ -111,7 +111,7 @@ Proof.
   pose proof n1_ge. pose proof n2_ge.
   cbn [agg_add cov_]. unfold add_cov.
   rewrite !agg_cov_aggr_of, !agg_mean_aggr_of, !agg_count_aggr_of by lra.
-  cbn [ocol]. nR. rewrite <- (add_cov_gen (col (fst p)) (col (snd p))). reflexivity.
+  cbn [ocol]. nR. rewrite <- (add_cov_gen (col (fst p)) (col (snd p))). first [reflexivity | rq].
 Qed.
 End Concat.
 
@@ -126,10 +126,10 @@ Proof.
   intros Ha Hb. unfold agg_eq, agg_add; cbn [count_ mean_ var_ cov_].
   rewrite Ha, Hb. unfold add_mean, add_var, add_cov, agg_count. rewrite Ha, Hb.
   repeat split.
-  - f_equal. ring.
-  - intros c. f_equal; ring.
-  - intros c. f_equal; [|ring]. f_equal; [ring|]. f_equal; [ring|ring].
-  - intros p. f_equal; [|ring]. f_equal; [ring|]. f_equal; [ring|ring].
+  - cbv [nlit]; rq.
+  - intros c. cbv [nlit]; rq.
+  - intros c. cbv [nlit]; rq.
+  - intros p. cbv [nlit]; rq.
 Qed.
 
 Lemma add_assoc_lemma a b c na nb nc :
